@@ -421,6 +421,11 @@ class StringifyMapper(Mapper):
             else:
                 children.append(self.rec(child, PREC_NONE, *args, **kwargs))
 
+        # A slice with fewer than two parts (a lone stop, as in slice(stop),
+        # or nothing) still needs its colon.
+        while len(children) < 2:
+            children.insert(0, "")
+
         return self.parenthesize_if_needed(
                 self.join(":", children),
                 enclosing_prec, PREC_NONE)
